@@ -273,3 +273,28 @@ def r14_balance(res, facts):
     if n < 9:
         raise AnalysisBroken('C03-R14: only %d (instruction, stack) pairs with an unconditional side found (11 confirmed by hand)' % n)
     return r
+
+
+def r19_fragment_not_text_only(res, facts):
+    """xsl:comment, xsl:processing-instruction and xsl:attribute switch the context to 'text nodes only' for their content (C01-R5).  A result tree fragment built inside such
+    content - the body of an xsl:variable / xsl:param / xsl:with-param - is a tree of its own: the function that starts a fragment switches the restriction off (on every
+    path, with the argument false) and the one that ends it switches it back (XSLT 1.0 11.2: the fragment is the result of instantiating the content; 7.3 / 7.4 / 7.1.3 restrict
+    what the INSTRUCTION's own content yields)."""
+    r = res.rule('C01-R19', 'a result tree fragment is not subject to the text-nodes-only restriction of an enclosing xsl:comment / xsl:processing-instruction / xsl:attribute: '
+                 'beginCreateXResultTreeFrag pushes CopyTextNodesOnly(false) once on every path, endCreateXResultTreeFrag pops it once on every path', floor=2)
+    for name, call, want_arg in (('beginCreateXResultTreeFrag', 'pushCopyTextNodesOnly', 0), ('endCreateXResultTreeFrag', 'popCopyTextNodesOnly', None)):
+        bodies = [a for a in facts.asts('StylesheetExecutionContextDefault::' + name, must=False) if a.get('body') is not None]
+        if len(bodies) != 1:
+            raise AnalysisBroken('StylesheetExecutionContextDefault::%s: %d bodies' % (name, len(bodies)))
+        a = bodies[0]
+        mm = _minmax(CFG(a), call)
+        site = 'StylesheetExecutionContextDefault::%s' % name
+        args_ok = want_arg is None or all((strip_casts(c['args'][0]) or {}).get('cv') == want_arg for c in calls(a['body']) if c.get('k') == 'MCall' and c.get('n') == call and c.get('args'))
+        if mm == (1, 1) and args_ok:
+            r.ok(site, '%s%s once on every path' % (call, '(false)' if want_arg == 0 else '()'))
+        else:
+            r.violation('%s: the text-only restriction of the enclosing instruction' % site,
+                        '%s is called between %s and %s times%s: a variable inside xsl:comment / xsl:processing-instruction / xsl:attribute builds its fragment under "text nodes only" '
+                        '(elements copied into it are dropped)%s' % (call, mm[0] if mm else '?', mm[1] if mm else '?', '' if args_ok else ', not with the argument false',
+                                                                     '' if name.startswith('begin') else ', or the flag stack is left unbalanced'), common.file_line(a))
+    return r
